@@ -587,3 +587,64 @@ pub fn typed_program(r: &mut Rng) -> (String, &'static str) {
     };
     (src, how)
 }
+
+// ---- G8: dispatch on a typed parameter -------------------------------------------------------------
+// Function literals with a tuple parameter type whose branch patterns have an arity deliberately off
+// by -1..+2 from the parameter's (same name / both unnamed), with nested tuple patterns in every
+// position: statically dead branches through the compile half.
+
+fn dpat(r: &mut Rng, d: usize) -> String {
+    if d == 0 {
+        return r.pick(&["a", "b", "_", "1", "0x00", "Nil", "[c]", "'int", "[]", "\"s\"", "x", "P[c]", "(y: c)"]).to_string();
+    }
+    match r.below(8) {
+        0 => format!("[{}]", dpat(r, d - 1)),
+        1 => format!("[{}, {}]", dpat(r, d - 1), dpat(r, d - 1)),
+        2 => format!("P[{}]", dpat(r, d - 1)),
+        3 => format!("Q[x: {}, y: {}]", dpat(r, d - 1), dpat(r, d - 1)),
+        4 => format!("({} | {})", dpat(r, 0), dpat(r, 0)),
+        5 => format!("(x: {})", dpat(r, d - 1)),
+        _ => dpat(r, 0),
+    }
+}
+
+pub fn dispatch_program(r: &mut Rng) -> (String, &'static str) {
+    let n = r.usize(4);
+    let tys = ["'int", "'bin", "[]", "['int]", "P['int]", "(A | B['int])", "['int, 'int]", "Nil"];
+    let named = r.chance(1, 3);
+    let with_field_names = r.chance(1, 4);
+    let fields: Vec<String> = (0..n)
+        .map(|i| if with_field_names { format!("f{i}: {}", r.pick(&tys)) } else { r.pick(&tys).to_string() })
+        .collect();
+    let name = if named { "T" } else { "" };
+    let param = if n == 0 && named { "T".to_string() } else { format!("{name}[{}]", fields.join(", ")) };
+    let param = if r.chance(1, 8) { format!("({param} | Nil)") } else { param };
+    let branches = 1 + r.usize(3);
+    let mut bs = vec![];
+    let mut how = "arity-exact";
+    for _ in 0..branches {
+        let delta: i64 = *r.pick(&[0, 0, 0, 1, 1, 2, -1, 3]);
+        if delta != 0 {
+            how = "arity-off";
+        }
+        let m = (n as i64 + delta).max(0) as usize;
+        let pats: Vec<String> = (0..m)
+            .map(|i| {
+                let d = r.usize(3);
+                let p = dpat(r, d);
+                if with_field_names && r.chance(3, 4) { format!("f{i}: {p}") } else { p }
+            })
+            .collect();
+        let pname = if named && !r.chance(1, 6) { "T" } else if r.chance(1, 8) { "U" } else { "" };
+        let pat = if m == 0 && !pname.is_empty() { pname.to_string() } else { format!("{pname}[{}]", pats.join(", ")) };
+        bs.push(format!("={pat} => {}", r.below(9)));
+    }
+    let body = if bs.len() == 1 && r.chance(1, 2) { format!("{{ {} }}", bs[0]) } else { format!("{{ | {} }}", bs.join(" | ")) };
+    let src = match r.below(4) {
+        0 => format!("f = #{param} {body}"),
+        1 => format!("f = #{param} {body}\nx = {name}[] ~> f"),
+        2 => format!("'p = {param}\nf = #'p {body}"),
+        _ => format!("g = #{{ #{param} {body} }}"),
+    };
+    (src, how)
+}
